@@ -47,7 +47,7 @@ Definition check (k : case) : bool :=
       && (match rd s' i with Some (_, d') => negb (k_cmp k) || oqs_close d d' | None => false end)
       && (negb (k_cmp k) || post_ok s' (k_post k))
   | Ok (VSc v) s', ISc v' => negb (k_cmp k) || (opt_close tol tol v' v && post_ok s' (k_post k))
-  | Err e s', IErr e' => err_eqb e e' && post_ok s' (k_post k)
+  | Err e s', IErr e' => err_eqb e e' && (negb (k_cmp k) || post_ok s' (k_post k))
   | _, _ => false
   end.
 
